@@ -576,11 +576,11 @@ SetErrno(v) == /\ Can("SetErrno") /\ v \in Errnos /\ S.errno # v
 \* a module operation attempted from another thread (own = that thread has a context of its own or none): permission error,
 \* no effect whatsoever
 ForeignCall(op, m, own) ==
-    /\ Can("ForeignCall") /\ AtTop /\ Handle(m) /\ op \in ForeignOps /\ own \in BOOLEAN
+    /\ Can("ForeignCall") /\ Handle(m) /\ op \in ForeignOps /\ own \in BOOLEAN          \* (also while a callback of m is executing)
     /\ S' = [S EXCEPT !.ret = EPERMC]
 \* a message cannot be addressed to a module of another (live) context
 ForeignTell(m) ==
-    /\ Can("ForeignTell") /\ AtTop /\ Handle(m)
+    /\ Can("ForeignTell") /\ Handle(m)
     /\ S' = [S EXCEPT !.ret = NEG]
 
 (* ------------------------------ events retained by the program ------------------------------ *)
